@@ -430,6 +430,26 @@ def body_text(fi, subst, rename=None):
     body = [copy.deepcopy(x) for x in model.strip_docstring(fi.node.body)]
     repo = fi.module.repo if hasattr(fi.module, 'repo') else None
     out = []
+    # names the body binds itself (locals, loop and comprehension
+    # variables) are numbered in order of first binding: what they are
+    # called is not a difference
+    params = set(fi.params())
+    order = {}
+    wrapper = ast.Module(body=body, type_ignores=[])
+
+    def first_bindings(node):
+        # source order: ast.walk is breadth first, so sort by position
+        names = [x for x in ast.walk(node) if isinstance(x, ast.Name) and
+                 isinstance(x.ctx, ast.Store) and x.id not in params]
+        names.sort(key=lambda x: (getattr(x, 'lineno', 0),
+                                  getattr(x, 'col_offset', 0)))
+        for x in names:
+            order.setdefault(x.id, '_v%d' % len(order))
+    first_bindings(wrapper)
+    for st in body:
+        for x in ast.walk(st):
+            if isinstance(x, ast.Name) and x.id in order:
+                x.id = order[x.id]
     for st in body:
         st2 = norm.inline_simple_calls(None, fi.module, st)
         st2 = _FlipNot().visit(st2)
@@ -516,6 +536,11 @@ def check_siblings(repo, rep):
             swap = {pa[0]: '\0', pa[1]: pa[0]}
             ta = _subst(_subst(body_text(fa, {}), swap), {'\0': pa[1]})
             ok = ta == body_text(fb, {}) and pa == fb.params()
+        if not ok and a != 'int_by_string':
+            # the same body, written out in both (the parameters carry the
+            # same names, whatever their order)
+            ok = body_text(fa, {}) == body_text(fb, {}) and \
+                sorted(fa.params()) == sorted(fb.params())
         rep.ob('R19c', '%s:%s->%s' % (modname, a, b), ok,
                '%s must hand its arguments to %s under the same parameter '
                'names (in %s\'s order)' % (a, b, b), loc=mod.loc(fa.node))
